@@ -114,7 +114,7 @@ var defaultInitAllow = []string{
 	"path", "path/filepath", "net/url", "container/ring", "io/fs", "os=no", "sync",
 	"github.com/ipfs/go-cid", "github.com/libp2p/go-libp2p-core/peer", "github.com/ipfs/go-datastore",
 	"github.com/libp2p/go-libp2p-gorpc", "github.com/ipfs/go-ds-crdt", "time=no",
-	"github.com/multiformats/go-multiaddr", "github.com/multiformats/go-varint", "github.com/multiformats/go-multihash", "github.com/mr-tron/base58/base58", "net", "net/netip", "encoding/binary", "math/bits", "github.com/multiformats/go-multibase", "github.com/multiformats/go-base32", "encoding/base32", "encoding/hex", "unicode", "internal/itoa",
+	"github.com/multiformats/go-multiaddr", "github.com/multiformats/go-varint", "github.com/multiformats/go-multihash", "github.com/multiformats/go-multihash/core", "github.com/mr-tron/base58/base58", "net", "net/netip", "encoding/binary", "math/bits", "github.com/multiformats/go-multibase", "github.com/multiformats/go-base32", "encoding/base32", "encoding/hex", "unicode", "internal/itoa",
 }
 
 func (e *Engine) initAllowed(p *ssa.Package) bool {
